@@ -445,7 +445,8 @@ def run_scenario(scen, work, out_path):
 
 def child_main(scen_path, out_path):
     scen = json.loads(Path(scen_path).read_text())
-    work = tempfile.mkdtemp(prefix="c17r_")
+    # inside the parent's temporary directory: removed by the parent even if this process is killed
+    work = tempfile.mkdtemp(prefix="c17r_", dir=os.path.dirname(os.path.abspath(out_path)))
     os.chdir(work)
     rc = 0
     try:
@@ -884,7 +885,7 @@ def run_runner(ctx):
             "non-trivial = completion order differs from submission order, or a unit failed, or ≥ 2 units waited in the queue; "
             "distinct by hash of the observed event trace.  Every W occurs.")
     ctx.rule = (ctx.rule + " | " if ctx.rule else "") + rule
-    n_per_w = 2 if quick else 14
+    n_per_w = 2 if quick else 20
     par = 4 if quick else 6
     n_mut = 6 if quick else 12
     scens = []
